@@ -18,6 +18,8 @@ def decode_msg(m: Any) -> Any:
         return m
     out: Dict[str, Any] = {}
     for k, v in m.items():
+        if k == "$headers_as":
+            continue
         if isinstance(v, dict) and "$raw" in v:
             out[k] = v["$raw"]
         elif k in BYTES_FIELDS and isinstance(v, str):
@@ -32,7 +34,21 @@ def decode_msg(m: Any) -> Any:
                 n = n["$raw"] if isinstance(n, dict) else s2b(n)
                 val = val["$raw"] if isinstance(val, dict) else s2b(val)
                 hs.append((n, val))
-            out[k] = hs
+            # the ASGI specification types headers as an Iterable: "$headers_as" asks for one
+            # of the other shapes applications really pass (tuples, one-shot iterators, ...)
+            shape = m.get("$headers_as")
+            if shape == "tuple":
+                out[k] = tuple(hs)
+            elif shape == "lists":
+                out[k] = [list(h) for h in hs]
+            elif shape == "iter":
+                out[k] = iter(hs)
+            elif shape == "generator":
+                out[k] = (h for h in hs)
+            elif shape == "map":
+                out[k] = map(lambda h: (h[0], h[1]), hs)
+            else:
+                out[k] = hs
         elif k == "links" and isinstance(v, list):
             out[k] = [s2b(x) if isinstance(x, str) else x for x in v]
         else:
